@@ -1,7 +1,14 @@
 package awskms
 
 import (
+	"bytes"
+	"context"
+	"fmt"
 	"testing"
+	"testing/synctest"
+	"time"
+
+	"verif/harness/fakes/awskms"
 
 	"verif/harness/awsx"
 	"verif/harness/ev"
@@ -9,9 +16,68 @@ import (
 
 func TestC17(t *testing.T) {
 	r := ev.Start("C17", "fault_enumeration")
-	r.Rule("fake regional KMS clients (own master key per region, call log, retained plaintexts) behind the v1 KMS interface (NewAWS, then Clients[i].KMS swapped) and the v2 AWSClient interface (Builder.WithKMSFactory). For n = 1..N regions: every preferred region x every subset failing GenerateDataKey x every subset failing Encrypt; for each successful wrap every non-empty subset of regions configured at unwrap x every preferred region among them x every subset failing Decrypt, for v1->v1, v2->v2, v1->v2, v2->v1, repeated over several builds (map iteration orders). Oracle: unwrap succeeds exactly when a configured region with an envelope entry can decrypt and yields the identical bytes; first Decrypt goes to the preferred region when it has an entry; wrap succeeds iff some region can generate; first GenerateDataKey goes to the preferred region; envelope entries = regions that succeeded; GenerateDataKey plaintext wiped; system key bytes never in a request. Distinct+non-trivial: distinct successful wrap configurations.")
+	r.Rule("fake regional KMS clients (own master key per region, call log, retained plaintexts) behind the v1 KMS interface (NewAWS, then Clients[i].KMS swapped) and the v2 AWSClient interface (Builder.WithKMSFactory). For n = 1..N regions: every preferred region x every subset failing GenerateDataKey x every subset failing Encrypt (plus, in virtual time, regions that hang for 1 s .. 10 min before they time out, with and without a caller deadline); for each successful wrap every non-empty subset of regions configured at unwrap x every preferred region among them x every subset failing Decrypt, for v1->v1, v2->v2, v1->v2, v2->v1, repeated over several builds (map iteration orders). Oracle: unwrap succeeds exactly when a configured region with an envelope entry can decrypt and yields the identical bytes; first Decrypt goes to the preferred region when it has an entry; wrap succeeds iff some region can generate; first GenerateDataKey goes to the preferred region; envelope entries = regions that succeeded; GenerateDataKey plaintext wiped; system key bytes never in a request. Distinct+non-trivial: distinct successful wrap configurations.")
 	r.Assume("real AWS KMS is not reachable offline; the fakes are written from the API semantics and are trusted")
 	awsx.Sweep(r, "C17", ev.Pick(3, 4), ev.Pick(2, 3))
+	slowRegions(t, r)
 	r.Exhaustive(true)
 	r.Finish(t)
+}
+
+// slowRegions: regions that do not fail at once but hang for a while before they time out (virtual time inside a
+// bubble; the fakes honour the request context like the AWS SDKs do). Wrapping must still succeed as long as one
+// region can generate a data key, however long the regions tried before it took to fail, with or without a
+// deadline on the caller's context; the result must unwrap to the identical bytes.
+func slowRegions(t *testing.T, r *ev.Run) {
+	regions := []string{"us-west-2", "eu-west-1", "ap-south-1"}
+	for _, version := range []int{1, 2} {
+		for _, hang := range []time.Duration{time.Second, 6500 * time.Millisecond, 45 * time.Second, 10 * time.Minute} {
+			for _, slow := range []int{1, 2} { // how many regions (in preferred-first order) hang before failing
+				for _, deadline := range []time.Duration{0, 24 * time.Hour} {
+					name := fmt.Sprintf("v%d/hang=%s/slow-regions=%d/caller-deadline=%s", version, hang, slow, deadline)
+					func() {
+						defer func() {
+							if pv := recover(); pv != nil {
+								r.Violation("panic:slow-regions", fmt.Sprintf("%s: %v", name, pv), nil)
+							}
+						}()
+						synctest.Test(t, func(t *testing.T) {
+							cloud := awskms.NewCloud(regions...)
+							k, _, err := awsx.Build(version, cloud, regions, regions[0])
+							if err != nil {
+								r.Violation("build-failed", fmt.Sprintf("%s: %v", name, err), nil)
+								return
+							}
+							// the preferred region is tried first, the others in an order the plug-in chooses: make the
+							// preferred one slow and, for slow=2, every other region but the last configured one too
+							cloud.Regions[regions[0]].SlowFailGenerate = hang
+							if slow == 2 {
+								cloud.Regions[regions[1]].SlowFailGenerate = hang
+							}
+							ctx := context.Background()
+							if deadline > 0 {
+								var cancel context.CancelFunc
+								ctx, cancel = context.WithTimeout(ctx, deadline)
+								defer cancel()
+							}
+							sk := bytes.Repeat([]byte{0x42}, 32)
+							env, err := k.EncryptKey(ctx, append([]byte(nil), sk...))
+							r.Eval(1)
+							r.Count("slow_region_wraps", 1)
+							r.Distinct("slow|" + name)
+							if err != nil {
+								r.Violation(fmt.Sprintf("wrap-success-mismatch:v%d:slow-region", version), fmt.Sprintf("%s: a healthy region could generate a data key but EncryptKey failed after the slow region(s) timed out: %v", name, err), nil)
+								return
+							}
+							cloud.Reset()
+							out, err := k.DecryptKey(context.Background(), env)
+							if err != nil || !bytes.Equal(out, sk) {
+								r.Violation(fmt.Sprintf("unwrap-wrong-bytes:v%d:slow-region", version), fmt.Sprintf("%s: the envelope produced after slow regions does not unwrap to the system key: %v", name, err), nil)
+							}
+						})
+					}()
+				}
+			}
+		}
+	}
 }
